@@ -192,8 +192,72 @@ pub fn case_lex(f: &F, x: &LN) -> Result<(), String> {
     Ok(())
 }
 
+/// classification rule on inputs assembled from optional items (not only on formatter output):
+/// task iff budget and punctuation are present, sentence iff punctuation without budget, else term
+pub fn case_items(f: &F, s: &str, expect: Kind) -> Result<u32, String> {
+    let mut accepted = 0;
+    if let Ok(n) = ops::parse_enum(f, s) {
+        accepted += 1;
+        if kind_of(&n) != expect {
+            return Err(format!("{s:?} carries the items of a {expect:?} but the enum parser classifies it as {:?}", kind_of(&n)));
+        }
+    }
+    if let Ok(n) = ops::parse_lex(f, s) {
+        accepted += 1;
+        if kind_of(&n) != expect {
+            return Err(format!("{s:?} carries the items of a {expect:?} but the lexical parser classifies it as {:?}", kind_of(&n)));
+        }
+    }
+    Ok(accepted)
+}
+
+pub fn item_inputs(f: &F) -> Vec<(String, Kind)> {
+    use crate::emit;
+    let s = &f.e.sentence;
+    let t = &f.e.task;
+    let mut out = vec![];
+    let terms = [R::word("a"), R::pair(Tag::Inh, R::word("a"), R::atom(Tag::IVar, "b1")), R::node(Tag::SetExt, vec![R::word("a")])];
+    let budgets: [Option<Vec<f64>>; 3] = [None, Some(vec![]), Some(vec![0.5, 0.25])];
+    let puncts: [Option<P>; 5] = [None, Some(P::Judgement), Some(P::Goal), Some(P::Question), Some(P::Quest)];
+    let stamps = [St::Eternal, St::Present, St::Fixed(-3)];
+    let truths: [Vec<f64>; 3] = [vec![], vec![1.0], vec![1.0, 0.9]];
+    for term in &terms {
+        for b in &budgets {
+            for p in &puncts {
+                for st in &stamps {
+                    for tr in &truths {
+                        let mut toks: Vec<String> = vec![];
+                        if let Some(b) = b {
+                            emit::floats(t.budget_brackets.0, t.budget_separator, t.budget_brackets.1, b, &mut toks);
+                        }
+                        emit::term(f, term, &mut toks);
+                        if let Some(p) = p {
+                            toks.push(emit::punct(f, *p).to_string());
+                        }
+                        emit::stamp(f, *st, &mut toks);
+                        if !tr.is_empty() {
+                            emit::floats(s.truth_brackets.0, s.truth_separator, s.truth_brackets.1, tr, &mut toks);
+                        }
+                        let kind = match (b, p) {
+                            (Some(_), Some(_)) => Kind::Task,
+                            (None, Some(_)) => Kind::Sentence,
+                            _ => Kind::Term,
+                        };
+                        out.push((emit::join(&toks, " "), kind));
+                    }
+                }
+            }
+        }
+    }
+    out
+}
+
 pub fn replay_case(c: &J) -> Result<(), String> {
     let f = fmts::by_name(c["format"].as_str().unwrap_or("ascii"));
+    if c["op"].as_str() == Some("classification_items") {
+        let k = match c["expect"].as_str() { Some("Task") => Kind::Task, Some("Sentence") => Kind::Sentence, _ => Kind::Term };
+        return case_items(&f, c["input"].as_str().unwrap_or(""), k).map(|_| ());
+    }
     match c["op"].as_str() {
         Some("conversions_lexical") => case_lex(&f, &ln_from_json(&c["value"])),
         _ => case_enum(&f, &V::from_json(&c["value"])),
@@ -206,7 +270,9 @@ pub fn run(run: &Run) {
          none/empty) and every top term, enum and lexical, x 3 formats: classification by both \
          parsers, the sentence<->task cast laws, the 3x3 wrap/unwrap matrix, is_* predicates, \
          try_into_task_compatible, the value-level cast, and the printed form of cast_to_task(s); \
-         distinct = distinct values",
+         plus 405 inputs per format assembled from every subset of {budget, punctuation, stamp, \
+         truth} around 3 terms, classified by the stated rule in both parsers; distinct = distinct \
+         values and inputs",
     );
     for f in fmts::all() {
         let mut vals: Vec<V> = u::tops(&f).into_iter().map(V::term).collect();
@@ -221,6 +287,18 @@ pub fn run(run: &Run) {
                 run.violation(&format!("[{}] {} : {}", f.name, v.show(), msg), json!({"op": "conversions_enum", "format": f.name, "value": v.to_json()}), &crate::props::c01::features(&f, v));
             }
         });
+        let items = item_inputs(&f);
+        let mut acc = 0u64;
+        for (s, k) in &items {
+            run.eval(1);
+            match case_items(&f, s, *k) {
+                Ok(n) => acc += n as u64,
+                Err(msg) => run.violation(&format!("[{}] {}", f.name, msg), json!({"op": "classification_items", "format": f.name, "input": s, "expect": format!("{k:?}")}), &[]),
+            }
+        }
+        run.count(&format!("item_subset_inputs_{}", f.name), items.len() as u64);
+        run.count(&format!("item_subset_parses_accepted_{}", f.name), acc);
+        run.add_distinct(items.len() as u64);
         let mut lv: Vec<LN> = lexu::tops(&f).into_iter().map(LN::Term).collect();
         lv.extend(lexu::u_sent(&f));
         run.add_distinct(lv.len() as u64);
